@@ -92,7 +92,7 @@ func init() {
 		if err != nil {
 			return err
 		}
-		list, i := stmtsAround(r, fd.Body, "req.FetchPayload(maxBodySize)")
+		list, i := stmtsAround(r, fd.Body, "req.FetchPayload(")
 		if i < 2 || i+2 >= len(list) {
 			return fmt.Errorf("serveHTTP: FetchPayload call site not found in the expected shape")
 		}
@@ -130,13 +130,13 @@ func init() {
 		if err != nil {
 			return err
 		}
-		plist, pi := stmtsAround(r, bd.Body, "maxBodySize := sp.spec.ServerMaxBodySize")
+		plist, pi := c07LimitFragment(r, bd.Body, "resp.FetchPayload")
 		if pi < 0 || pi+2 >= len(plist) {
 			return fmt.Errorf("buildResponse: limit selection not found")
 		}
 		w.Line("def poolLimitSelection : String := %s", Str(r.Src(plist[pi])+"; "+r.Src(plist[pi+1])))
 		fif, ok := plist[pi+2].(*ast.IfStmt)
-		okFetch := ok && fif.Init != nil && r.Src(fif.Init) == "err = resp.FetchPayload(maxBodySize)" && r.Src(fif.Cond) == "err != nil"
+		okFetch := ok && fif.Init != nil && strings.HasPrefix(r.Src(fif.Init), "err = resp.FetchPayload(") && r.Src(fif.Cond) == "err != nil"
 		if okFetch {
 			ret, isRet := fif.Body.List[len(fif.Body.List)-1].(*ast.ReturnStmt)
 			okFetch = isRet && len(ret.Results) == 1 && r.Src(ret.Results[0]) == "err"
